@@ -216,7 +216,11 @@ fn continuous_doors(r: &mut Rng) -> Case {
         std::panic::catch_unwind(std::panic::AssertUnwindSafe(|| f())).unwrap_or(("(panic)".to_string(), None))
     };
     let mut bopt = Some(b);
-    let o_builder = guard(&mut || match bopt.take().unwrap().solve_with(Clarabel) { Ok(s) => ("solution".to_string(), Some(s.value())), Err(BuilderError::Solver(e)) => (crate::props::c03::solver_error(&e), None), Err(BuilderError::Linearization(e)) => (crate::props::c01::lin_error(&e), None) });
+    let mut ref_outcome: Option<String> = None;
+    let o_builder = guard(&mut || match bopt.take().unwrap().solve_with(Clarabel) { Ok(s) => {
+            let asg = s.solution().assignment().iter().map(|a| format!("({} {})", sx::q(&a.name), sx::num(a.value))).collect::<Vec<_>>().join(" ");
+            ref_outcome = Some(format!("(solution {} (assign{}{}))", sx::num(s.value()), if asg.is_empty() { "" } else { " " }, asg));
+            ("solution".to_string(), Some(s.value())) }, Err(BuilderError::Solver(e)) => (crate::props::c03::solver_error(&e), None), Err(BuilderError::Linearization(e)) => (crate::props::c01::lin_error(&e), None) });
     let o_solver = guard(&mut || match RoocSolver::try_new(text.clone()) {
         Ok(s) => match s.solve_using(rooc::solve_real_lp_problem_clarabel) {
             Ok(sol) => ("solution".to_string(), Some(sol.value())),
@@ -238,6 +242,12 @@ fn continuous_doors(r: &mut Rng) -> Case {
     c.show = text.replace('\n', " ; ");
     c.imp = format!("(real-doors (builder {} {:?}) (roocsolver {} {:?}) (pipe {} {:?}) (direct {} {:?}))", o_builder.0, o_builder.1, o_solver.0, o_solver.1, o_pipe.0, o_pipe.1, o_direct.0, o_direct.1);
     c.tags = vec!["real-doors".into(), o_direct.0.trim_start_matches('(').split(|ch| ch == ' ' || ch == ')').next().unwrap_or("").to_string()];
+    // the builder door's answer is also judged by the mixed reference (no discrete declaration: one residual LP, solved by
+    // independent vertex enumeration; non-affine models are skipped there)
+    if o_builder.0 == "solution" || o_builder.0 == "(infeasible)" {
+        let outcome = if o_builder.0 == "solution" { ref_outcome.clone().unwrap_or_default() } else { "(infeasible)".to_string() };
+        if !outcome.is_empty() { c.oracle = format!("ref {} {}", sx::model(&text_model.clone().mark_all()), outcome); c.tags.push("real-doors-judged".into()); }
+    }
     c.nontrivial = o_direct.0 == "solution" || o_direct.0 == "(infeasible)";
     let all = [&o_builder, &o_solver, &o_pipe, &o_direct];
     if all.iter().any(|o| o.0 == "(panic)") {
